@@ -6,6 +6,8 @@ From Coq Require Import Strings.Byte.
 Require Import BS.Bytes BS.Common BS.Api BS.Layout BS.Format BS.FormatFacts BS.Spec BS.SpecStep BS.Sections BS.ExtractFacts.
 Require Import BS.FS BS.FSFacts BS.Meta BS.MetaFacts BS.Header BS.Reader BS.ReaderFacts BS.Index BS.Data BS.DataFacts BS.Seek BS.Series BS.SeriesFacts BS.ReadAllFacts BS.TotalFacts BS.OpenFacts BS.CacheFacts BS.CacheOpenFacts BS.TornGenFacts BS.CacheCreateFacts BS.HistoryFacts.
 Require Import BS.World BS.Known BS.Judge BS.JudgeFacts BS.JudgeCacheFacts.
+Require Import BS.Common BS.Api BS.Index BS.Data BS.Seek BS.SeekGenFacts.
+Require BSgen.SeekGen.
 Import ListNotations.
 
 
@@ -138,3 +140,17 @@ Check history_caches_example.
 (* partial: reopen at a line count that is not a multiple of a bucket size, and every damaged state of the caches, are outside
    these theorems: there the library deviates (known finding D10: the repair resumes after the MEAN timestamp of the last bucket
    and the open bucket is reset) and the judge reports it as KNOWN-FINDING. Payload sizes 0..3 with 0xFFFF continuation words: D6. *)
+
+(* the bound arithmetic and the 65534 comparison of the seek, as the current source text makes them (translated on every run by
+   tools/translate_seek.py into gen/SeekGen.v), are the model's: the reads and the repair this property speaks of go through them *)
+Theorem C09_source_start_bound_is_model : forall d b first last, data_range d = Ok (Some (first, last)) ->
+  checked_start_time d b = BSgen.SeekGen.gen_checked_start first last b.
+Proof. exact gen_checked_start_is_model. Qed.
+Print Assumptions C09_source_start_bound_is_model.
+Theorem C09_source_end_bound_is_model : forall d b first last, data_range d = Ok (Some (first, last)) ->
+  checked_end_time d b = BSgen.SeekGen.gen_checked_end first last b.
+Proof. exact gen_checked_end_is_model. Qed.
+Print Assumptions C09_source_end_bound_is_model.
+Theorem C09_source_in_gap_is_model : forall val gs, in_gap val gs = BSgen.SeekGen.gen_in_gap val gs.
+Proof. exact gen_in_gap_is_model. Qed.
+Print Assumptions C09_source_in_gap_is_model.
